@@ -39,7 +39,14 @@ RULE = ("L1 (differential CLI runs): regenerable scenarios (kind, seed) -> input
         "threshold or cutoff (--internal-downsampling, --max-coverage, --gt-qual-threshold, --recombrate, --default-gq, "
         "--linked-read-distance-cutoff, --gap-threshold, --cut-poly, -B/--min-overlap, --only-snvs, --only-largest-block); "
         "every second diploid scenario of the thorough tier has deep noisy reads. 'polyploid': tri/tetraploid samples, several read islands, "
-        "polyphase --threads 1..4. Targeted inputs for the order dependences suspected from reading (F7): "
+        "polyphase --threads 1..4 and 8 (plain, -B/--min-overlap, --use-prephasing --include-haploid-sets --sample), haplotag "
+        "--ploidy, compare --ploidy, stats on the polyploid truth phasing. 'misc': find_snv_candidates (3 option sets), hapcut2vcf, "
+        "polyphasegenetic (tetraploid cross, 3 option sets). The diploid scenario has 1-3 read groups per sample (shuffled "
+        "header), unmapped / secondary / duplicate / supplementary alignments, optionally a second family, the alignments also "
+        "split over two BAM files, and option-walking jobs (sample and chromosome subsets in any order, --ignore-read-groups, "
+        "algorithms, --tag, --merge-reads, --genmap, compressed output, a phased VCF as input, --regions, --prioroutput, ...). "
+        "A crash (traceback / signal) of any job is reported as a violation <subcommand>:crash:<exception>; clean rejections "
+        "are tallied. Targeted inputs for the order dependences suspected from reading (F7): "
         "'shared-barcode' (two samples sharing a BX barcode), 'linked-stress' (read clouds whose phase set is a tie), "
         "'undeclared-info' (INFO keys missing from the VCF header), 'ped-coverage' (trio and quartet with ~110 noisy reads per "
         "sample with mixed base qualities; genotype --ped --max-coverage and phase --ped --internal-downsampling swept over "
@@ -86,21 +93,24 @@ Import ListNotations.
 Open Scope Z_scope.
 """
 
-MAX_PAR = 10
+MAX_PAR = 12
+SLOW = []
 
 
 # ============================================================================ differential CLI runs
-def job_configs(job, n_extra=0):
+def job_configs(job, n_extra=0, short=False):
     """configurations for one job: baseline first, one exact repetition of the baseline last"""
     seeds = ["0", "1", "2", "random", "3"]
+    if short:       # option-walking jobs in the quick tier: 0, 1, random + repetition
+        seeds = ["0", "1", "random", "2", "3"]
     cfgs = []
     if "threads" in job.dims:
-        combos = [("0", 1), ("0", 2), ("1", 3), ("random", 4), ("3", 1), ("2", 4)]
+        combos = [("0", 1), ("0", 2), ("1", 3), ("random", 4), ("3", 1), ("2", 8)]
         cfgs = [{"hashseed": s, "threads": t} for s, t in combos]
     elif "output_threads" in job.dims:
-        cfgs = [{"hashseed": s, "output_threads": t} for s, t in zip(seeds[:4], (1, 2, 3, 4))]
+        cfgs = [{"hashseed": s, "output_threads": t} for s, t in zip(seeds[:3 if short else 4], (1, 2, 4, 3))]
     else:
-        cfgs = [{"hashseed": s} for s in seeds[:4]]
+        cfgs = [{"hashseed": s} for s in seeds[:3 if short else 4]]
     for k in range(n_extra):
         c = dict(cfgs[(k + 1) % len(cfgs)])
         c["hashseed"] = seeds[(k + 4) % len(seeds)]
@@ -113,8 +123,11 @@ def job_configs(job, n_extra=0):
 
 def run_one(ctx, job, cfg, outdir):
     """returns (rc, {label: canonical record list or None})"""
+    import time
     os.makedirs(outdir, exist_ok=True)
+    t0 = time.time()
     rc, so, se = util.run_cli(ctx, job.argv(outdir, cfg), cwd=outdir, hashseed=cfg["hashseed"], timeout=900)
+    SLOW.append((round(time.time() - t0, 1), job.name, str(cfg)))
     outs = {}
     for lab, (rel, kind) in job.outputs.items():
         p = os.path.join(outdir, rel)
@@ -126,7 +139,48 @@ def run_one(ctx, job, cfg, outdir):
         except Exception as e:          # missing / unreadable output: part of the observable result
             outs[lab] = [f"<unreadable output: {type(e).__name__}>"]
     shutil.rmtree(outdir, ignore_errors=True)
-    return rc, outs, se[-600:]
+    return rc, outs, se[-2500:]
+
+
+def crash_class(rc, stderr):
+    """None for a clean rejection (whatshap's own error message / argparse usage error), else the name of the
+    uncaught exception or the signal"""
+    if rc < 0:
+        return f"signal{-rc}"
+    if "Traceback (most recent call last)" in stderr:
+        import re
+        last = [l for l in stderr.strip().split("\n") if l and not l.startswith(" ")]
+        name = last[-1].split(":")[0].strip() if last else "exception"
+        name = name.split(".")[-1][:40] or "exception"
+        frames = re.findall(r'File "[^"]*whatshap/([^"]+)", line \d+, in (\w+)', stderr)
+        where = f"@{frames[-1][1]}" if frames else ""
+        return name + where
+    if rc in (1, 2):
+        return None
+    return f"exit{rc}"
+
+
+def tally_job(ctx, label, job, cfgs):
+    """input-distribution counters for the coverage audit: options, multiplicities, configurations"""
+    argv = job.argv("OUT", cfgs[0])
+    for a in argv[1:]:
+        if a.startswith("-") and not a[1:2].isdigit():
+            ctx.tally(f"{label}.option.{job.sub}.{a}")
+    for k in ("nsamples", "nchrom", "families", "singletons", "rg_per_sample_max", "input_files", "out_ext", "ploidy",
+              "islands", "family", "max_coverage"):
+        if k in job.feat:
+            ctx.tally(f"{label}.feat.{k}={job.feat[k]}")
+    for k in ("deep", "bx", "ped", "use_ped_samples", "ignore_sample_name", "ps_tie", "shared_barcode", "tied_phase_sets",
+              "equal_blocks", "undeclared_info", "phased_vcf_input", "fastq", "special_alignments", "paired"):
+        if job.feat.get(k):
+            ctx.tally(f"{label}.feat.{k}")
+    nin = sum(1 for a in argv if a.endswith(".bam") and not a.startswith("OUT"))
+    ctx.tally(f"{label}.feat.bam_inputs={nin}")
+    for c in cfgs:
+        ctx.tally(f"{label}.cfg.hashseed={c['hashseed']}")
+        for dname in job.dims:
+            ctx.tally(f"{label}.cfg.{dname}={c.get(dname, 1)}")
+    ctx.tally(f"{label}.cfg.exact_repetitions", sum(1 for c in cfgs[1:] if same_cfg(c, cfgs[0])))
 
 
 def same_cfg(a, b):
@@ -192,12 +246,15 @@ def scenario_plan(ctx, rng):
     plan = []
     nd = ctx.n(1, 9)
     for k in range(nd):
-        plan.append(("diploid", rng.randrange(10 ** 9), {"extra_samples": rng.choice([0, 1, 1, 2]),
+        ex = 4 if k == 0 else rng.choice([0, 1, 2, 3, 4])     # >= 3: second family; 4: plus an unrelated singleton
+        plan.append(("diploid", rng.randrange(10 ** 9), {"extra_samples": ex, "second_trio": ex >= 3,
                                                           "nchrom": rng.choice([2, 2, 3]), "deep": k % 2 == 1}))
+    for k in range(ctx.n(1, 4)):
+        plan.append(("misc", rng.randrange(10 ** 9), {"pg_vars": rng.choice([18, 24, 30]), "pg_progeny": rng.choice([8, 12, 16])}))
     for k in range(ctx.n(1, 6)):
         plan.append(("polyploid", rng.randrange(10 ** 9), {"ploidy": rng.choice([3, 3, 4]) if k else 3,
                                                             "nsamples": rng.choice([1, 2]) if k else 2,
-                                                            "nvars": rng.randint(9, 13), "b0": bool(k % 2)}))
+                                                            "nvars": rng.randint(9, 13), "b0": k % 2 == 0}))
     for k in range(ctx.n(1, 4)):
         plan.append(("shared-barcode", rng.randrange(10 ** 9), {"nsamples": 2 if k == 0 else rng.choice([2, 3, 4])}))
     for k in range(ctx.n(1, 3)):
@@ -237,16 +294,21 @@ def differential(ctx, plan, only_job=None, cfg_override=None, label="run"):
             jobs = [j for j in jobs if j.name == only_job]
         entry = []
         for job in jobs:
-            cfgs = cfg_override or job_configs(job, n_extra=1 if (job.feat.get("deep") or not ctx.quick) else 0)
+            cfgs = cfg_override or job_configs(job, n_extra=1 if (job.feat.get("deep") or not ctx.quick) else 0,
+                                               short=ctx.quick and bool(job.feat.get("walk")))
             entry.append((job, cfgs))
             for ci, cfg in enumerate(cfgs):
                 tasks.append((si, job, ci, cfg, os.path.join(d, "out", job.name, f"c{ci}")))
         scns.append((kind, seed, params, d, entry))
         ctx.tally(f"{label}.scenarios.{kind}")
     # slow jobs first
-    tasks.sort(key=lambda t: 0 if t[1].sub == "polyphase" else 1)
+    tasks.sort(key=lambda t: 0 if t[1].feat.get("max_coverage", 0) >= 16 else 1 if t[1].sub.startswith("polyphase") else 2)
+    import time
+    t0 = time.time()
     with ThreadPoolExecutor(max_workers=MAX_PAR) as ex:
         outs = list(ex.map(lambda t: run_one(ctx, t[1], t[3], t[4]), tasks))
+    ctx.extra[f"{label}_cli_seconds"] = round(time.time() - t0, 1)
+    ctx.extra[f"{label}_slowest_runs"] = sorted(SLOW, reverse=True)[:6]
     res = {(t[0], t[1].name, t[2]): o for t, o in zip(tasks, outs)}
     ctx.tally(f"{label}.cli_runs", len(tasks))
     ctx.log(f"{label}: {len(tasks)} CLI runs of {sum(len(e[4]) for e in scns)} jobs in {len(scns)} scenarios done")
@@ -257,9 +319,21 @@ def differential(ctx, plan, only_job=None, cfg_override=None, label="run"):
             results = [res[(si, job.name, ci)] for ci in range(len(cfgs))]
             rcs = [r[0] for r in results]
             ctx.tally(f"{label}.runs.{job.sub}", len(cfgs))
+            tally_job(ctx, label, job, cfgs)
             if any(rcs):
                 ctx.tally(f"{label}.jobs_with_nonzero_exit")
-                ctx.log(f"note: {kind}/{seed}/{job.name} exit codes {rcs}: {results[rcs.index(max(rcs))][2][-300:]!r}")
+                ci = [i for i, r in enumerate(rcs) if r][0]
+                exc = crash_class(rcs[ci], results[ci][2])
+                if exc is None:     # a clean rejection of the input (CommandLineError / argparse): malformed stream
+                    ctx.tally(f"{label}.jobs_rejected.{job.sub}")
+                    ctx.log(f"note: {kind}/{seed}/{job.name} rejected, exit codes {rcs}: {results[ci][2][-200:]!r}")
+                else:               # a crash on a well-formed input is reported, whatever the configuration
+                    ctx.violation(f"{job.sub}:crash:{exc}",
+                                  f"{job.sub} ({job.name}) crashed ({exc}, exit codes {rcs} under configs {cfgs}) on a well-formed "
+                                  f"input: scenario {kind} seed {seed} params {params}; argv: whatshap "
+                                  f"{' '.join(job.argv('OUT', cfgs[ci]))}; stderr tail: {results[ci][2][-500:]!r}",
+                                  {"kind": "cli", "scenario": [kind, seed, params], "job": job.name, "output": None,
+                                   "configs": [cfgs[ci]]})
             for lab, (rel, okind) in job.outputs.items():
                 runs = [[r[0]] + [J.digest(x) for x in r[1][lab]] for r in results]
                 cases.append(term(runs))
@@ -342,6 +416,14 @@ def real_sort(reads):
     return out
 
 
+def real_sort_safe(reads):
+    """an exception of the implementation is an output (it then disagrees with the model), not a harness error"""
+    try:
+        return real_sort(reads)
+    except Exception as e:
+        return [(f"<{type(e).__name__}>", 0, 0, 0, 0)]
+
+
 def view(reads):
     return [(nm, src, len(pos), pos[0] if pos else 0, payload) for nm, src, pos, payload in reads]
 
@@ -401,7 +483,7 @@ def check_sort(ctx, sets, label="sort"):
             rng.shuffle(p)
             orders.append(p)
         orders.append(list(reversed(reads)))
-        outs = [real_sort(o) for o in orders]
+        outs = [real_sort_safe(o) for o in orders]
         raw.append((orders, outs))
     # hash values as data: the murmur re-implementation if it explains every observed order, else derived ranks
     def py_lt(tbl, a, b):
@@ -506,7 +588,12 @@ def check_families(ctx, peds, label="families"):
             if rep:
                 rng.shuffle(samples)
                 rng.shuffle(lines)
-            obs = real_families(samples, lines, work, k)
+            try:
+                obs = real_families(samples, lines, work, k)
+            except Exception as e:      # recorded as an output that cannot match the model
+                ctx.tally(f"{label}.exceptions.{type(e).__name__}")
+                obs = [(samples[0], [])] if samples else [("?", [])]
+                rank.setdefault("?", 4999)
             k += 1
             # merges exactly as setup_families issues them: (father, child), (mother, child) per usable trio
             merges = []
@@ -570,10 +657,14 @@ def check_writer(ctx, n, label="writer"):
                 superreads[s] = rs
                 components[s] = dict(comp)
             out = os.path.join(work, f"w{it}-{oi}.vcf")
-            with open(out, "w") as fh:
-                with PhasedVcfWriter(command_line=None, in_path=vcf, out_file=fh) as w:
-                    w.write(c, superreads, components)
-            runs.append([0] + [J.digest(x) for x in J.canon_text(out)])
+            try:
+                with open(out, "w") as fh:
+                    with PhasedVcfWriter(command_line=None, in_path=vcf, out_file=fh) as w:
+                        w.write(c, superreads, components)
+                runs.append([0] + [J.digest(x) for x in J.canon_text(out)])
+            except Exception as e:      # an exception is an output: it disagrees with every successful order
+                ctx.tally(f"{label}.exceptions.{type(e).__name__}")
+                runs.append([1, J.digest(type(e).__name__ + str(oi))])
         cases.append(term(runs))
         raw.append((sc.samples, len(orders)))
         ctx.count(("writer", it, tuple(sorted((s, tuple(v[0])) for s, v in spec.items()))), nontrivial=True)
